@@ -60,10 +60,11 @@ impl Monitor for C13 {
             ("checked_under_lazy_policy", tier.pick(5_000, 100_000)),
             ("checked_with_bytes_possibly_buffered", tier.pick(5_000, 100_000)),
             ("noop_shapes_issued_on_an_exactly_full_wal_file", tier.pick(100, 2_000)),
+            ("due_persists_checked_after_a_noop_under_OnDelay", tier.pick(300, 6_000)),
         ]
     }
     fn rule(&self) -> String {
-        "case = one generated history under any of 6 persist policies with rejected / no-op call shapes inserted at random points and whenever the write cursor is within 48 bytes of the end of the WAL file, in particular when the file is full to its last byte (8 shapes, on existing and non-existing queues); around each such call: (half of the time) persist(Flush) to drain buffers, snapshot + per-file content hash of the directory, the call, (if drained) a trailing persist(Flush), then: the syscall trace of the call itself is EMPTY (no write, no fsync, no open, no seek) and the trailing flush writes nothing, snapshot, disk_used_bytes and directory content unchanged, wal_bytes_written == 0; with probability 1/3 an immediate restart must also reproduce the pre-call snapshot; evaluation = one such call; distinct_nontrivial = distinct (shape, policy, pre-call state digest)".into()
+        "case = one generated history under any of 6 persist policies with rejected / no-op call shapes inserted at random points and whenever the write cursor is within 48 bytes of the end of the WAL file, in particular when the file is full to its last byte (8 shapes, on existing and non-existing queues); around each such call: (half of the time) persist(Flush) to drain buffers, snapshot + per-file content hash of the directory, the call, (if drained) a trailing persist(Flush), then: the syscall trace of the call itself is EMPTY (no write, no fsync, no open, no seek) and the trailing flush writes nothing, snapshot, disk_used_bytes and directory content unchanged, wal_bytes_written == 0; under OnDelay(2 ms) a quarter of the no-ops are preceded by a 3 ms sleep and followed by an effective append, which must flush (the no-op must not consume the persist that was due); with probability 1/3 an immediate restart must also reproduce the pre-call snapshot; evaluation = one such call; distinct_nontrivial = distinct (shape, policy, pre-call state digest)".into()
     }
     fn run_case(&self, ctx: &Ctx, case: u64, acc: &mut Acc) {
         let parts = ctx.case_seed(case);
@@ -137,6 +138,13 @@ impl Monitor for C13 {
                 continue;
             };
             d.gen.note_external(&bad);
+            // OnDelay(2 ms): let the delay elapse right before the no-op (undrained mode only,
+            // so that no explicit persist sits between the sleep and the follow-up append):
+            // the persist that is due must still be due afterwards
+            let due_leg = policy == crate::ops::Policy::DelayShortFlush && !drained && rng.chance(1, 2);
+            if due_leg {
+                std::thread::sleep(std::time::Duration::from_millis(3));
+            }
             let st = d.apply(bad.clone());
             let tail_events = if drained { d.apply(Op::Persist { fsync: false }).events } else { Vec::new() };
             if st.outcome.is_io_err() {
@@ -218,8 +226,32 @@ impl Monitor for C13 {
                 acc.violation(format!("C13/wal-content-changed/{}", shape), case, detail("WAL file contents changed", json!({})));
                 return;
             }
-            // (4) no effect after a restart either
-            if rng.chance(1, 3) {
+            // (3b) policy state: under OnDelay the no-op must not consume a persist that is due.
+            //      The delay elapsed before the no-op, so the next effective append has to
+            //      flush; an explicit flush right after it must find nothing left to write.
+            if due_leg {
+                if let Some(q) = d.gen.st.keys().next().cloned() {
+                    let op = Op::Append { q, pos: None, lens: vec![48], chained: false };
+                    d.gen.note_external(&op);
+                    let a = d.apply(op.clone());
+                    if matches!(a.outcome, Outcome::Appended { last: Some(_), .. }) {
+                        let t = d.apply(Op::Persist { fsync: false });
+                        acc.count("due_persists_checked_after_a_noop_under_OnDelay");
+                        let left: Vec<String> = t.events.iter().filter(|e| e.mutates()).map(|e| e.brief()).collect();
+                        if !left.is_empty() {
+                            acc.violation(
+                                format!("C13/noop-consumed-a-due-persist/{}", shape),
+                                case,
+                                json!({"history": d.history_json(300), "call": st.op.to_json(), "outcome": st.outcome.to_json(), "shape": shape, "violated": "OnDelay(2 ms): the delay had elapsed before the no-op; the append that followed it did not flush", "observation": {"follow_up_append": op.to_json(), "bytes_still_buffered_after_it": left}}),
+                            );
+                            return;
+                        }
+                    }
+                }
+            }
+            // (4) no effect after a restart either (not after the follow-up append of (3b), which
+            //     changed the state on purpose)
+            if !due_leg && rng.chance(1, 3) {
                 let r = d.apply(Op::Restart);
                 if let Outcome::Err(e) = &r.outcome {
                     acc.inconclusive(format!("restart failed (C01 territory): {:?}", e));
